@@ -15,6 +15,7 @@ import (
 	"strings"
 	"syscall"
 	"testing"
+	"time"
 	"testing/iotest"
 
 	"github.com/rogpeppe/go-internal/lockedfile"
@@ -36,6 +37,7 @@ type Op struct {
 	Trunc       bool     `json:"trunc,omitempty"`
 	Append      bool     `json:"append,omitempty"`
 	Hold        int      `json:"hold,omitempty"` // yields while the handle / mutex is held
+	HoldSecs    int      `json:"hold_secs,omitempty"` // simulated seconds that pass at each of those yields (a lock held for a long time)
 	IO          []string `json:"io,omitempty"`   // through the handle: r w t
 	DoubleClose bool     `json:"double_close,omitempty"`
 	Dup         bool     `json:"dup,omitempty"`        // another descriptor of the same open file (as a child that inherited it would hold) outlives Close
@@ -52,6 +54,7 @@ type Plan struct {
 	Fifo   []bool        `json:"fifo,omitempty"` // per path: the lock file is a FIFO (non-regular: truncation fails and is tolerated)
 	Tasks  []TaskPlan    `json:"tasks"`
 	Faults []simos.Fault `json:"faults,omitempty"`
+	AgeSecs int          `json:"age_secs,omitempty"` // how old the lock files that exist at the start are
 	Sched  simrt.Sched   `json:"sched"`
 }
 
@@ -93,6 +96,9 @@ func genPlan(t *rapid.T, tier string) any {
 					op.Append = rapid.IntRange(0, 3).Draw(t, "append") == 0
 				}
 				op.Hold = rapid.IntRange(0, 3).Draw(t, "hold")
+				if rapid.IntRange(0, 4).Draw(t, "longhold") == 0 {
+					op.HoldSecs = rapid.SampledFrom([]int{1, 6, 60, 3600}).Draw(t, "holdsecs")
+				}
 				op.IO = rapid.SliceOfN(rapid.SampledFrom([]string{"r", "w", "t"}), 0, 2).Draw(t, "io")
 				if p.Fifo[op.Path] {
 					op.IO = nil
@@ -126,6 +132,7 @@ func genPlan(t *rapid.T, tier string) any {
 		}
 		p.Faults = append(p.Faults, f)
 	}
+	p.AgeSecs = rapid.SampledFrom([]int{0, 0, 2, 10, 86400}).Draw(t, "agesecs")
 	p.Sched = gen.Sched(t, 300)
 	return p
 }
@@ -168,8 +175,10 @@ func run(t *testing.T, plan any, keep bool) *simcheck.Outcome {
 			out.Count("shape_fifo_lock_file", 1)
 		} else if p.Exists[i] {
 			os.WriteFile(paths[i], []byte("initial\n"), 0o666)
+			simos.SetMtime(paths[i], simtime.Now())
 		}
 	}
+	simtime.Advance(time.Duration(p.AgeSecs) * time.Second)
 	hasReplace := false
 	for _, tp := range p.Tasks {
 		for _, op := range tp.Ops {
@@ -301,6 +310,7 @@ func run(t *testing.T, plan any, keep bool) *simcheck.Outcome {
 						}
 						for k := 0; k < op.Hold; k++ {
 							simrt.Yield("hold")
+							simtime.Advance(time.Duration(op.HoldSecs) * time.Second)
 							if k < len(op.IO) {
 								switch op.IO[k] {
 								case "r":
@@ -373,6 +383,7 @@ func run(t *testing.T, plan any, keep bool) *simcheck.Outcome {
 						}
 						for k := 0; k < op.Hold; k++ {
 							simrt.Yield("hold")
+							simtime.Advance(time.Duration(op.HoldSecs) * time.Second)
 						}
 						if sh, ex := simos.Holders(path); !hasReplace && (ex != 1 || sh != 0) {
 							out.Violate("lock-lost-before-close", "%s Mutex held, but the kernel-side table shows %d exclusive and %d shared locks", tag, ex, sh)
@@ -428,6 +439,7 @@ func run(t *testing.T, plan any, keep bool) *simcheck.Outcome {
 	}
 	ops, fired := simos.Counters()
 	out.Nontrivial = ops["flock-blocked"] > 0 || sharedReaders > 0
+	out.SimSeconds = simtime.Offset().Seconds()
 	out.Count("flock_calls", simsys.Calls)
 	out.Count("flock_acquired", ops["flock-acquired"])
 	out.Count("probe_lock_request_blocked", ops["flock-blocked"])
@@ -445,7 +457,7 @@ var harness = &simcheck.Harness{
 	Level:    "exploration",
 	Rule: "rapid draws 1-3 simulated processes x 1-3 goroutines (at most 6 tasks) x 1-4 operations on 1-2 lock files: OpenFile with every access mode +-O_CREATE/O_TRUNC/O_APPEND, Open, Create, Edit " +
 		"(held over 0-3 yields with reads/writes/truncates through the handle, sometimes closed twice); a fifth of the lock files are FIFOs (non-regular files, opened O_RDWR only), Mutex.Lock/unlock, Read, Write, Transform; a third of the plans inject 1-2 faults " +
-		"(EINTR storms, ENOLCK or ENOSYS/ENOTSUP on flock, failing truncate after the lock, failing close); schedule policies random/sticky/pct/preempt; " +
+		"(EINTR storms, ENOLCK or ENOSYS/ENOTSUP on flock, failing truncate after the lock, failing close); lock files that are 0 s to a day old at the start and locks held for 1 s to an hour of simulated time; schedule policies random/sticky/pct/preempt; " +
 		"non-trivial = some lock request had to wait or readers shared a lock; distinct by decision-trace hash",
 	Gen:     genPlan,
 	NewPlan: func() any { return &Plan{} },
